@@ -453,11 +453,15 @@ func evalChild[K Key, E Entry[K]](
 	if f.keys != nil && !f.containsKey(entryKey) {
 		return false, nil
 	}
+	// A child may carry both a raw stage and an eval stage (And of a MatchRaw and a
+	// Match): neither subsumes the other, so both have to pass.
+	if f.raw != nil {
+		if ok, err := f.raw(key, value); err != nil || !ok {
+			return false, err
+		}
+	}
 	if f.eval != nil {
 		return f.eval(ctx, e, key, value)
-	}
-	if f.raw != nil {
-		return f.raw(key, value)
 	}
 	return true, nil
 }
